@@ -38,7 +38,9 @@ Record Inv (s : rstate) : Prop := mkInv {
   inv_pc : forall c, pc_ok s c (c_pc (r_cs s c));
   inv_ops : forall c sub fs, sub_of s c sub = Some fs -> In (OReq sub fs) (c_ops (r_cs s c));
   inv_dead : forall c, c_dead (r_cs s c) = true ->
-      c_pc (r_cs s c) = [IUnsubAll] \/ (c_pc (r_cs s c) = [] /\ reg_get c (r_reg s) = None)
+      c_pc (r_cs s c) = [IUnsubAll] \/ (c_pc (r_cs s c) = [] /\ reg_get c (r_reg s) = None);
+  (* a session whose context was cancelled in flight has not returned yet *)
+  inv_cancel : forall c, In c (r_cancel s) -> c_dead (r_cs s c) = false
 }.
 
 Lemma ctl_fields st st' :
@@ -85,6 +87,7 @@ Proof.
   - intro c. constructor.
   - discriminate.
   - discriminate.
+  - contradiction.
 Qed.
 
 (* ------------------------------------------------------------------ *)
@@ -305,6 +308,18 @@ Proof.
     cbn [r_cs]. rewrite upd_same. cbn. constructor.
   - cbn in Hl. discriminate.
   - cbn in Hl. discriminate.
+  - (* cancel *)
+    cbn [r_cs]. eapply pc_ok_frame; [apply I | reflexivity | reflexivity | auto | auto | reflexivity].
+  - (* skip *)
+    cbn in Hl. apply Nat.eqb_eq in Hl. subst x. pose proof (inv_pc s I c) as P. rewrite H in P.
+    cbn [r_cs with_cs]. rewrite upd_same. cbn [c_pc set_pc].
+    destruct i; cbn in H0; try contradiction.
+    + destruct (pc_ok_inv_eose _ _ _ _ P) as [-> _]. constructor.
+    + rewrite (pc_ok_inv_count _ _ _ _ P). constructor.
+    + rewrite (pc_ok_inv_ok _ _ _ _ P). constructor.
+  - (* defer *)
+    apply Hact in Hl. subst x. cbn [r_cs]. rewrite upd_same. cbn [c_pc]. apply PK_unsuball.
+    cbn [r_cs]. rewrite upd_same. reflexivity.
 Qed.
 
 (* ------------------------------------------------------------------ *)
@@ -333,6 +348,10 @@ Proof.
   - match goal with |- In o (c_ops (upd ?f ?k ?v x)) => destruct (upd_cases f k v x) as [[-> ->]|[_ ->]] end; assumption.
   - match goal with |- In o (c_ops (upd ?f ?k ?v x)) => destruct (upd_cases f k v x) as [[-> ->]|[_ ->]] end; assumption.
   - match goal with |- In o (c_ops (upd ?f ?k ?v x)) => destruct (upd_cases f k v x) as [[-> ->]|[_ ->]] end; assumption.
+  - assumption.
+  - now rewrite ops_upd_pc.
+  - match goal with |- In o (c_ops (upd ?f ?k ?v x)) => destruct (upd_cases f k v x) as [[-> ->]|[_ ->]] end;
+      [cbn; apply in_or_app; now left | assumption].
 Qed.
 
 Lemma inv_ops_trans s l s' :
@@ -418,18 +437,69 @@ Proof.
       right. pose proof (inv_pc s I c) as P. rewrite H in P.
       destruct (pc_ok_inv_unsuball _ _ _ P) as [-> _].
       cbn [r_cs r_reg]. rewrite upd_same. cbn. split; [reflexivity | apply reg_get_del_same].
+    + (* cancel: the session was alive *)
+      cbn [r_cs] in Hd. congruence.
+    + (* skip: a cancelled session has not returned yet *)
+      cbn [r_cs with_cs] in Hd. rewrite upd_same in Hd. cbn in Hd.
+      rewrite (inv_cancel s I c) in Hd by assumption. discriminate.
+    + (* defer *)
+      left. cbn [r_cs]. rewrite upd_same. reflexivity.
   - pose proof (trans_ctl_other s l s' x T Hl) as Hctl.
     destruct (ctl_fields _ _ Hctl) as (Epc & Ed & _). rewrite Epc. rewrite Ed in Hd.
     rewrite (env_reg s l s' x T (not_label_not_run x l Hl)). now apply I.
 Qed.
 
+(** whoever is on the cancel list is still alive *)
+Lemma dead_upd_pc f c pc x : c_dead (upd f c (set_pc (f c) pc) x) = c_dead (f x).
+Proof. destruct (upd_cases f c (set_pc (f c) pc) x) as [[-> ->]|[_ ->]]; reflexivity. Qed.
+
+Lemma inv_cancel_trans s l s' :
+  Inv s -> trans s l s' -> forall x, In x (r_cancel s') -> c_dead (r_cs s' x) = false.
+Proof.
+  intros I T x Hin.
+  inversion T; subst; cbn [r_cancel r_cs with_cs start_visit] in *;
+    try (rewrite dead_upd_pc; now apply (inv_cancel s I)).
+  - (* op *)
+    destruct (upd_cases (r_cs s) c
+      (mkC (program s c o) (c_q (r_cs s c)) (c_hand (r_cs s c)) (c_out (r_cs s c)) (c_rd (r_cs s c))
+           (c_ctr (r_cs s c)) (is_disc o) (c_ops (r_cs s c) ++ [o]) (c_drops (r_cs s c))) x) as [[-> ->]|[_ ->]];
+      [contradiction | now apply (inv_cancel s I)].
+  - (* reply *)
+    match goal with |- c_dead (upd ?f ?k ?v x) = _ => destruct (upd_cases f k v x) as [[-> ->]|[_ ->]] end;
+      cbn; now apply (inv_cancel s I).
+  - (* pubbegin *)
+    match goal with |- c_dead (upd ?f ?k ?v x) = _ => destruct (upd_cases f k v x) as [[-> ->]|[_ ->]] end;
+      cbn; now apply (inv_cancel s I).
+  - (* visit *)
+    rewrite (dead_upd2 _ _ _ _ (fun st => set_rd st (c :: c_rd st))) by (intro; reflexivity).
+    rewrite dead_upd_pc. now apply (inv_cancel s I).
+  - rewrite (dead_upd2 _ _ _ _ (fun st => set_rd st (remove_conn c (c_rd st)))) by (intro; reflexivity).
+    rewrite dead_upd_pc. now apply (inv_cancel s I).
+  - rewrite (dead_upd2 _ _ _ _ (send_if_match (r_buf s) e t sub fs)) by (intro; apply ctl_send_if_match).
+    rewrite dead_upd_pc. now apply (inv_cancel s I).
+  - (* unsuball *)
+    match goal with |- c_dead (upd ?f ?k ?v x) = _ => destruct (upd_cases f k v x) as [[-> ->]|[_ ->]] end;
+      cbn; now apply (inv_cancel s I).
+  - (* take *)
+    match goal with |- c_dead (upd ?f ?k ?v x) = _ => destruct (upd_cases f k v x) as [[-> ->]|[_ ->]] end;
+      cbn; now apply (inv_cancel s I).
+  - (* deliver *)
+    match goal with |- c_dead (upd ?f ?k ?v x) = _ => destruct (upd_cases f k v x) as [[-> ->]|[_ ->]] end;
+      cbn; now apply (inv_cancel s I).
+  - (* cancel *)
+    destruct Hin as [<-|Hin]; [assumption | now apply (inv_cancel s I)].
+  - (* defer *)
+    apply remove_conn_In in Hin as [N Hin]. rewrite upd_other by auto. now apply (inv_cancel s I).
+Qed.
+
 Theorem Inv_trans s l s' : Inv s -> trans s l s' -> Inv s'.
 Proof.
   intros I T. destruct (Inv_reg_trans s l s' I T) as [K1 K2].
-  constructor; [exact K1 | exact K2 | | |].
+  constructor; [exact K1 | exact K2 | | | |].
   - intro x. destruct (label_of_conn x l) eqn:Hl; [eapply pc_ok_actor | eapply pc_ok_other]; eassumption.
   - eapply inv_ops_trans; eassumption.
   - eapply inv_dead_trans; eassumption.
+  - eapply inv_cancel_trans; eassumption.
 Qed.
 
 Theorem Inv_reachable buf s : reachable buf s -> Inv s.
